@@ -35,6 +35,24 @@ fn main() {
     if std::env::var("VERIF_LOUD").is_err() {
         common::quiet_panics();
     }
+    if std::env::var("VERIF_LOG").is_ok() {
+        // debugging aid: the real code's warn!/error! lines on stderr
+        struct L;
+        impl log::Log for L {
+            fn enabled(&self, m: &log::Metadata) -> bool {
+                m.level() <= log::Level::Warn
+            }
+            fn log(&self, r: &log::Record) {
+                if self.enabled(r.metadata()) {
+                    eprintln!("[{}] {}", r.level(), r.args());
+                }
+            }
+            fn flush(&self) {}
+        }
+        static LOGGER: L = L;
+        let _ = log::set_logger(&LOGGER);
+        log::set_max_level(log::LevelFilter::Warn);
+    }
     match suite {
         "codec" => codec::run(seed, tier, out),
         "codec-worker" => codec::worker(seed, tier, args[4].parse().unwrap_or(0)),
